@@ -133,3 +133,5 @@ LEVEL = {
                  '+ concurrent stress runs, forced schedules with the writer stopped inside its transaction, and read-only '
                  'concurrency runs, all judged against the committed-version timeline',
 }
+
+CFG['rule'] = CFG['rule'] + ' ' + 'Additions: 24 (quick) / 600 (thorough) forced-schedule runs: the writer is stopped inside its bbolt write transaction (before the batch callback, after it returned nil, after it returned an error) and complete vector / filter searches are run there from a cold, partially warm or warm cache (they must answer from the one committed version); then, without any writer, on a collection of 100+ points a second short search is started on the shared cache at the 1st..30th bucket operation of a first search from a cold start (read-only concurrency).'
